@@ -216,6 +216,9 @@ def to_fexp(e, env):
     s = show(e)
     if s in env:
         return "EV %s" % env[s]
+    # `255.0` / `(255 as f32)` written for `u8::MAX as f32`: the same constant
+    if s in ("255.0", "(255 as f32)", "(255u8 as f32)") and "VU8Max" in env.values():
+        return "EV VU8Max"
     k = e[0]
     if k == "bin":
         c = {"+": "EAdd", "-": "ESub", "*": "EMul", "/": "EDiv"}[e[1]]
